@@ -161,6 +161,12 @@ def analyse_unit(unit):
                         src_line = m["line"]
                     if not m.get("line") and clause is None and m["item"] == loc_item:
                         clause = clause_text(lines[ln])
+                        if len(clause) < 8:
+                            # multi-line clause such as `({ let s = ...; match res { ... } })`: name it by its first lines
+                            le = min(sp.get("line_end", ln + 1), ln + 40)
+                            body = [clause_text(x) for x in lines[ln + 1:le] if clause_text(x)]
+                            key = [x for x in body if x.startswith("//")] or body
+                            clause = (clause + " " + " ".join(key[:2]))[:110]
         if sp_is_in_item_text(spans, lmap) is False and loc_item is None:
             tmpl_only = True
         if not known:
